@@ -20,6 +20,7 @@ PINNED = [
     "trace_shape", "trace_order", "trace_caught",
     "debug_prefix_line",
     "span_stack_balanced", "op_span_owner", "span_leak_refuted",
+    "fault_ip_current", "resume_without_refresh_refuted",
 ]
 
 HEADER = "From KV.diag Require Import DiagModel DiagRun.\nOpen Scope N_scope.\n"
@@ -227,7 +228,7 @@ FAULT_KINDS = sorted(FAULTS)
 # call forms: lines-builder -> (lines, [offsets of the frames this call contributes, innermost first], plain?)
 CALL_FORMS = ["plain", "parens", "in-expr", "return", "in-if", "in-for", "multiline-args", "in-list", "pipe",
               "in-expr-multiline",
-              "each-to-list", "overload"]
+              "each-to-list", "overload", "display"]
 
 
 def call_lines(form, ind, callee, a, P):
@@ -259,42 +260,150 @@ def call_lines(form, ind, callee, a, P):
     if form == "overload":
         m = P.fresh("m")
         return [f"{ind}{m} =", f"{i2}@+: |other| {callee} other", f"{ind}r = {m} + {a}"], [1, 2], False
+    if form == "display":
+        # the call happens while a string interpolation displays a value with @display
+        m = P.fresh("m")
+        return [f"{ind}{m} =", f"{i2}@display: || 'v{{{callee} {a}}}'", f"{ind}r = 'x {{{m}}} y'"], [1, 2], False
     raise ValueError(form)
 
 
-def gen_program(rng, depth=None, fault=None, nstmts=None, forms=None, crlf=False, force_stmt=None):
-    """returns dict(src, expect=[0-based lines, innermost first], fault kind, classes, debug=[(line, expr)], plain)"""
+# ---- generators: where the payload (the fault, or the call towards it) sits relative to the yields of a generator
+# body, and how the generator is consumed.  (mode -> number of resumes needed to reach the payload)
+GEN_MODES = {"before-yield": 1, "after-yield": 2, "after-yield-debug": 2, "later-after-yield": 2, "in-yield-loop": 2,
+             "after-second-yield": 3, "in-yield-loop-conditional": 3}
+GEN_MODE_NAMES = sorted(GEN_MODES)
+CONSUMERS = ["gen-for", "gen-next", "gen-to-list", "gen-adaptor", "gen-keep", "gen-wrapper"]
+
+
+def consumer_lines(form, ind, callee, a, n_resume, P, in_generator):
+    """returns (lines, frame offsets innermost first, crossing): `crossing` = the error passes through a `for`
+    (IterNext) and arrives as text: the generator's frames are in the rendered message, not in Error.trace"""
+    i2 = ind + "  "
+    body = "yield x" if in_generator else "y = x"
+    if form == "gen-for":
+        return [f"{ind}for x in {callee} {a}", f"{i2}{body}"], [0], True
+    if form == "gen-next":
+        g = P.fresh("g")
+        return [f"{ind}{g} = {callee} {a}"] + [f"{ind}{g}.next()"] * n_resume, [n_resume], False
+    if form == "gen-to-list":
+        return [f"{ind}r = {callee}({a}).to_list()"], [0], False
+    if form == "gen-adaptor":
+        return [f"{ind}r = {callee}({a}).each(|x| x).to_tuple()"], [0], False
+    if form == "gen-keep":
+        return [f"{ind}r = {callee}({a})", f"{i2}.keep |x| true", f"{i2}.to_list()"], [2], False
+    if form == "gen-wrapper":
+        w = P.fresh("w")
+        return [f"{ind}{w} =", f"{i2}g: {callee} {a}", f"{i2}@next: || self.g.next()", f"{ind}for x in {w}",
+                f"{i2}{body}"], [2, 3], True
+    raise ValueError(form)
+
+
+def generator_body(P, mode, payload, ints, scope, nst):
+    """emits the body of a generator function (indent 2) around `payload(ind) -> (lines, offsets...)`;
+    returns what payload returned with absolute line numbers"""
+    def fill(n):
+        for _ in range(n):
+            gen_stmt(P, "  ", ints, scope)
+
+    def put(ind):
+        res = payload(ind)
+        at = P.emit(res[0])
+        return at, res
+
+    fill(nst())
+    if mode == "before-yield":
+        at, res = put("  ")
+        P.emit(["  yield a"])
+    elif mode == "after-yield":
+        P.emit(["  yield a"])
+        at, res = put("  ")
+        P.emit(["  yield a + 1"])
+    elif mode == "after-yield-debug":
+        P.emit(["  yield a"])
+        P.debugs.setdefault(scope, []).append((len(P.lines), "a"))
+        P.emit(["  debug a"])
+        at, res = put("  ")
+    elif mode == "later-after-yield":
+        P.emit(["  yield a"])
+        fill(1 + nst())
+        at, res = put("  ")
+    elif mode == "in-yield-loop":
+        P.emit(["  for i in 0..3", "    yield i"])
+        at, res = put("    ")
+    elif mode == "after-second-yield":
+        P.emit(["  yield a", "  yield a + 1"])
+        at, res = put("  ")
+    elif mode == "in-yield-loop-conditional":
+        P.emit(["  for i in 0..3", "    yield i", "    if i == 1"])
+        at, res = put("      ")
+    else:
+        raise ValueError(mode)
+    return at, res
+
+
+def gen_program(rng, depth=None, fault=None, nstmts=None, forms=None, crlf=False, gens=None, consumers=None):
+    """returns dict(src, expect=[0-based lines, innermost first], fault kind, classes, debug=[(line, expr)], plain).
+    gens: {k: generator mode} makes f_k a generator (None: random, {}: none)"""
     P = Prog(rng)
     depth = rng.below(5) if depth is None else depth
     fault = rng.choice(FAULT_KINDS) if fault is None else fault
     tag = rng.below(1000)
     nst = (lambda: rng.below(4)) if nstmts is None else (lambda: nstmts)
+    if gens is None:
+        gens = {k: rng.choice(GEN_MODE_NAMES) for k in range(1, depth + 1) if rng.chance(1, 3)} if rng.chance(1, 2) else {}
     helper = "hlp"
     P.emit([f"{helper} = |p, q| p"])
     call_offsets = {}     # k -> list of absolute lines contributed by the call in frame k-1 to f_k
     plain = True
+    crossing = False
     fault_line = None
     top_ints = []
+
+    yields_before = {}    # k -> number of values generator f_k yields before the planted fault is reached
+    reyield = {}          # k -> values of f_k re-yielded by its consumer (a `for` inside a generator body)
+
+    def call_payload(k, ind, arg, in_generator):
+        """lines of the call from frame k-1 to f_k"""
+        nonlocal plain, crossing
+        if k in gens:
+            form = rng.choice(consumers or CONSUMERS)
+            ls, offs, cr = consumer_lines(form, ind, f"f{k}", arg, yields_before[k] + 1, P, in_generator)
+            reyield[k] = yields_before[k] if (in_generator and form in ("gen-for", "gen-wrapper")) else 0
+            plain = False
+            crossing = crossing or cr
+        else:
+            allowed = [f for f in (forms or CALL_FORMS) if not (f == "return" and (k == 1 or in_generator))] or ["plain"]
+            form = rng.choice(allowed)
+            ls, offs, pl = call_lines(form, ind, f"f{k}", arg, P)
+            plain = plain and pl
+        P.kinds.add("call:" + form)
+        return ls, offs
+
     # functions deepest first: f_depth holds the fault; f_k calls f_{k+1}
     for k in range(depth, 0, -1):
         for _ in range(nst()):
             gen_stmt(P, "", top_ints, 0)
         P.emit([f"f{k} = |a|"])
         ints = ["a"]
-        for _ in range(nst()):
-            gen_stmt(P, "  ", ints, k)
+        is_gen = k in gens
         if k == depth:
-            ls, off = fault_lines(fault, "  ", "a", tag, helper)
-            at = P.emit(ls)
-            fault_line = at + off
+            payload = lambda ind: fault_lines(fault, ind, "a", tag, helper)
         else:
-            form = rng.choice(forms or CALL_FORMS)
-            ls, offs, pl = call_lines(form, "  ", f"f{k+1}", "a", P)
-            P.kinds.add("call:" + form)
-            at = P.emit(ls)
-            call_offsets[k + 1] = [at + o for o in offs]
-            plain = plain and pl
-            P.emit(["  r"])
+            payload = lambda ind, k=k, is_gen=is_gen: call_payload(k + 1, ind, "a", is_gen)
+        if is_gen:
+            P.kinds.add("generator:" + gens[k])
+            at, res = generator_body(P, gens[k], payload, ints, k, nst)
+            yields_before[k] = GEN_MODES[gens[k]] - 1 + (reyield.get(k + 1, 0) if k < depth else 0)
+        else:
+            for _ in range(nst()):
+                gen_stmt(P, "  ", ints, k)
+            res = payload("  ")
+            at = P.emit(res[0])
+        if k == depth:
+            fault_line = at + res[1]
+        else:
+            call_offsets[k + 1] = [at + o for o in res[1]]
+            P.emit(["  yield 0" if is_gen else "  0"])
         if rng.chance(1, 2):
             gen_stmt(P, "  ", ints, -1, allow_debug=False)   # after the fault: never executed
     for _ in range(nst() + (1 if depth == 0 else 0)):
@@ -304,12 +413,9 @@ def gen_program(rng, depth=None, fault=None, nstmts=None, forms=None, crlf=False
         at = P.emit(ls)
         fault_line = at + off
     else:
-        form = rng.choice([f for f in (forms or CALL_FORMS) if f != "return"] or ["plain"])
-        ls, offs, pl = call_lines(form, "", "f1", rng.choice(top_ints) if top_ints else "5", P)
-        P.kinds.add("call:" + form)
+        ls, offs = call_payload(1, "", rng.choice(top_ints) if top_ints else "5", False)
         at = P.emit(ls)
         call_offsets[1] = [at + o for o in offs]
-        plain = plain and pl
     for _ in range(rng.below(3)):
         gen_stmt(P, "", top_ints, -1, allow_debug=False)
     expect = [fault_line]
@@ -325,7 +431,8 @@ def gen_program(rng, depth=None, fault=None, nstmts=None, forms=None, crlf=False
     if classes is None:
         classes = {f'EThrown(s"boom{tag}")'}
     out = {"m": "run", "src": src, "expect": expect, "fault": fault, "classes": sorted(classes), "debug": dbg,
-           "plain": plain, "depth": depth, "kinds": sorted(P.kinds), "crlf": crlf}
+           "plain": plain, "crossing": crossing, "depth": depth, "kinds": sorted(P.kinds), "crlf": crlf,
+           "generators": {str(k): v for k, v in gens.items()}}
     if fault in KNOWN_FAULTS:
         out["known"] = KNOWN_FAULTS[fault]
     return out
@@ -527,6 +634,45 @@ def d_spans_vs_ast(r):
     return fails
 
 
+RENDERED_POS = re.compile(r"\n--- (\d+):(\d+)\n")
+
+# R5: the instruction the innermost frame points at must be the one that can raise the planted fault
+# (a frame pointing at the previous instruction, e.g. a Yield or a Copy, still has the right line quite often)
+FAULT_OPS = {
+    "throw": {"Throw"}, "in-if": {"Throw"}, "after-newline-fill": {"Throw"}, "rethrow": {"Throw"},
+    "index": {"Index"}, "in-for": {"Index"}, "index-type": {"Index"},
+    "binop": {"Add"}, "binop-multiline": {"Add"}, "in-list": {"Add"}, "interp": {"Add"}, "binop-before-chain": {"Add"},
+    "binop-paren-chain": {"Add"}, "chain-then-binop": {"Add"},
+    "assert": {"Call"}, "assert-eq": {"Call"}, "assert-multiline": {"Call"}, "argcount": {"Call"},
+    "argcount-multiline": {"Call"}, "not-callable": {"Call"},
+    "native-args": {"CallInstance", "Call"}, "not-found": {"Access", "CallInstance"}, "let-type": {"AssertType"},
+    "negate": {"Negate"}, "negate-multiline": {"Negate"},
+}
+
+
+def check_excerpt_loose(src, text):
+    """an excerpt whose span is not known (frames of a nested VM rendered into the message): the position line L:C,
+    then quoted lines numbered from L whose text is the source text"""
+    lines = text_lines(src)
+    parts = text.split("\n")
+    m = EX_HEAD.match(parts[0]) if parts else None
+    if not m:
+        return [f"E1 no position line in {parts[:1]}"]
+    n = int(m.group(1)) - 1
+    quoted = 0
+    for row in parts[2:]:
+        mm = EX_LINE.match(row)
+        if not mm:
+            break
+        if int(mm.group(1)) != n + 1 + quoted or n + quoted >= len(lines) or mm.group(2) != lines[n + quoted]:
+            return [f"E2 quoted line {row!r} is not source line {n+1+quoted}: "
+                    f"{lines[n+quoted] if n+quoted < len(lines) else None!r}"]
+        quoted += 1
+    if quoted == 0:
+        return [f"E2 the excerpt at {parts[0]} quotes no line"]
+    return []
+
+
 def d_fault(case, r):
     """clauses of C12 on a fault-planted program; returns (failures, invalid_reason)"""
     src = case["src"]
@@ -534,15 +680,33 @@ def d_fault(case, r):
         return [f"P0 panic while compiling/running/rendering: {r['panic']} at {r.get('at')}"], None
     if r["kind"] != "runtime":
         return [], f"planted fault did not fire (kind {r['kind']}: {r.get('head')})"
-    if r["class"] not in case["classes"]:
+    crossing = case.get("crossing", False)
+    if r["class"] not in case["classes"] and not crossing:
         return [], f"another error fired: {r['class']} / {r.get('head')}"
     fails = []
     exp = case["expect"]
     tr = r["trace"]
     got = [t["span"][0] if t["span"] else None for t in tr]
-    if got != exp:
+    # R1r: the RENDERED message names, in order, the planted fault line and then every call site innermost first.
+    # This is the clause that also covers errors which crossed a generator / iterator boundary inside a `for`: there
+    # the nested VM's frames arrive as text in the message head and Error.trace only holds the outer frames.
+    rendered = [int(m.group(1)) - 1 for m in RENDERED_POS.finditer(r["msg"])]
+    if rendered != exp:
+        fails.append(f"R1 rendered frames name lines (1-based) {[g+1 for g in rendered]}, planted fault line then call "
+                     f"sites innermost first: {[e+1 for e in exp]}")
+    if crossing:
+        if got != exp[len(exp) - len(got):]:
+            fails.append(f"R1 trace lines (1-based) {[None if g is None else g+1 for g in got]} are not the outermost "
+                         f"planted call sites {[e+1 for e in exp]}")
+    elif got != exp:
         fails.append(f"R1 trace lines (1-based) {[None if g is None else g+1 for g in got]}, planted fault line then call "
                      f"sites innermost first: {[e+1 for e in exp]}")
+    if not crossing and tr and tr[0].get("same_chunk") and case.get("fault") in FAULT_OPS \
+            and tr[0]["op"] not in FAULT_OPS[case["fault"]]:
+        fails.append(f"R5 the innermost frame (ip {tr[0]['ip']}) points at a {tr[0]['op']} instruction; the planted "
+                     f"{case['fault']} fault is raised by {'/'.join(sorted(FAULT_OPS[case['fault']]))}")
+    for piece in r["msg"].split("\n--- ")[1:]:
+        fails += check_excerpt_loose(src, piece)
     for i, t in enumerate(tr):
         if t["span"] is None:
             fails.append(f"R2 trace frame {i} (ip {t['ip']}) has no source span")
@@ -705,6 +869,20 @@ def gen_run_cases(tier, seed):
     for form in CALL_FORMS:
         for fk in ("throw", "index"):
             cases.append(("fault-exhaustive", gen_program(rng, depth=2, fault=fk, nstmts=0, forms=[form])))
+    # generators: every placement of the payload relative to the yields x every way of consuming the generator, with
+    # the fault itself in the generator body (depth 1), a call towards the fault in it (depth 2, generator = f1),
+    # and a generator consuming a generator (depth 2, both)
+    for mode in GEN_MODE_NAMES:
+        for cons in CONSUMERS:
+            cases.append(("generator-exhaustive", gen_program(rng, depth=1, fault="binop", nstmts=0, gens={1: mode},
+                                                              consumers=[cons])))
+            cases.append(("generator-exhaustive", gen_program(rng, depth=2, fault="throw", nstmts=0, forms=["plain"],
+                                                              gens={1: mode}, consumers=[cons])))
+        cases.append(("generator-exhaustive", gen_program(rng, depth=2, fault="index", nstmts=0,
+                                                          gens={1: mode, 2: rng.choice(GEN_MODE_NAMES)})))
+    for fk in FAULT_KINDS:
+        cases.append(("generator-exhaustive", gen_program(rng, depth=1, fault=fk, nstmts=0, gens={1: "after-yield"},
+                                                          consumers=[rng.choice(CONSUMERS)])))
     for mk in MUT_KINDS:
         cases.append(("broken-exhaustive", gen_broken(rng, kind=mk)))
     nf = 500 if tier == "quick" else 12000
@@ -712,7 +890,7 @@ def gen_run_cases(tier, seed):
         plain = rng.chance(1, 2)
         cases.append(("fault-random", gen_program(rng, forms=["plain", "parens", "in-expr", "in-if", "in-for",
                                                                "multiline-args", "in-list", "pipe", "in-expr-multiline"] if plain else None,
-                                                  crlf=rng.chance(1, 10))))
+                                                  gens={} if plain else None, crlf=rng.chance(1, 10))))
     nb = 250 if tier == "quick" else 6000
     for i in range(nb):
         cases.append(("broken-random", gen_broken(rng, crlf=rng.chance(1, 10))))
@@ -972,7 +1150,8 @@ def run(tier, seed):
           "fault lines and parser positions are search-only (D-predicates on generated programs)",
           "kh_diag (Rust harness; overflow checks on) and checks/c12.py (generators, comparison, D-predicates)"]
     return chk.finish(
-        rule="programs: committed corpus + every fault kind x depth 0..2 + every call form + every mutation kind + seeded "
+        rule="programs: committed corpus + every fault kind x depth 0..2 + every call form + every generator placement x "
+             "consumer + every mutation kind + seeded "
              "random fault-planted programs (0-3 filler statements of 34 kinds per block, depth 0-4) and token-broken "
              "programs; model inputs: exhaustive push sequences (<=3 pushes, 3 ips, 2 spans), exhaustive tiny texts x "
              "spans, seeded random; non-trivial = every program / >=2 pushes / text with a line break",
